@@ -357,9 +357,10 @@ theorem EState.npAllowedConn_pod (np : NetPol) (rules : List NPRule) (other : KP
   (npAllowedConn_go_spec np other (.pod p ns) a 0 ho hq hn rules hv).2.2 (Or.inl rfl)
 
 /-- **the rule walk answers whenever the connection-set loop does.** If `allowedConns` (the loop
-of `list`, with its early exit on All Connections) returns a set from an accumulator that does
-not hold the queried point, the walk of `eval` returns an answer: a rule the loop did not look at
-comes after rules whose union is everything, one of which allows the point and stops the walk. -/
+of `list`, which examines every rule) returns a set, the walk of `eval` returns an answer: no
+selecting rule fails. (The converse does not hold: the walk stops at the first rule that allows the
+point and never sees a failing rule behind it, while the loop of `list` does.) The hypothesis on
+the accumulator is kept from the time the loop had an early exit on All Connections. -/
 theorem EState.npAllowedConn_go_total (np : NetPol) (other dst : KPeer) (a b : Int)
     (ho : other.Concrete a) (hd : dst.DstOK) {proto port : String} {pr : Proto} {n : Int}
     (hq : Parses proto port pr n) (hn : inRange n) (rules : List NPRule)
@@ -404,11 +405,7 @@ theorem EState.npAllowedConn_go_total (np : NetPol) (other dst : KPeer) (a b : I
           have hnu : ¬ (res.union rc).den pr n := by
             rw [ConnSet.den_union_wfe hcan.1 hw]
             exact fun hh => hh.elim hres hnrc
-          cases hall : (res.union rc).allowAll
-          · rw [hall] at h
-            simp only [Bool.false_eq_true, if_false] at h
-            exact ih hv' (res.union rc) hcan' hnu h
-          · exact absurd ((ConnSet.den_of_allowAll hcan'.1 hall pr n).mpr hn) hnu
+          exact ih hv' (res.union rc) hcan' hnu h
         · exact ⟨true, rfl⟩
 
 /-- the same for the whole of `allowedConns` / `npAllowedConn` -/
@@ -995,10 +992,9 @@ theorem verdict_pod_ok (e : Engine) (hv : e.Valid) (sp : KPeer) (p : Pod) (ns : 
 
 /-! ### 8. the walk answers whenever the connection-set path does
 
-`list` evaluates every selecting policy and, in each, every rule up to the All Connections exit;
+`list` evaluates every selecting policy and, in each, every rule (no exit on All Connections);
 `eval` stops at the first policy and the first rule that allow the point. A rule `eval` reaches is
-a rule `list` has evaluated, or comes after rules whose union is everything — then one of those
-allows the (in-range) point and `eval` has stopped before. Likewise `list` skips the
+a rule `list` has evaluated. Likewise `list` skips the
 NetworkPolicies only when the admin policies decide every point, and then they decide the queried
 one. -/
 
